@@ -184,9 +184,9 @@ def simulate(
     if asarray:
         # one array per measurement when its entries have a common shape (else: the list of entries)
         def _stack(items):
-            items = [np.asarray(item) for item in items]
-            if len({item.shape for item in items}) > 1:
-                return items
+            arrays = [np.asarray(item) for item in items]
+            if len({arr.shape for arr in arrays}) > 1:
+                return arrays
             return np.asarray(items)
 
         values = tuple(_stack(arr) for arr in values)
